@@ -21,6 +21,10 @@ pub fn idle(slot: usize) {
     CUR[slot % SLOTS].store(-1, Ordering::Relaxed);
 }
 pub fn start() {
+    // under Miri a detached thread is reported as a leak, and wall-clock limits mean nothing
+    if cfg!(miri) {
+        return;
+    }
     let limit: u64 = std::env::var("GH_HANG_SECS").ok().and_then(|s| s.parse().ok()).unwrap_or(90) * 1000;
     let _ = now_ms();
     std::thread::spawn(move || loop {
